@@ -995,6 +995,10 @@ class Engine(Evaluator):
             base = self.ev(tgt.value, st)
             if not isinstance(base, VObj):
                 raise Unsupported('attribute assignment on %r' % (base,))
+            setters = [c for c in BY_NAME.get('%s.%s' % (base.cls, tgt.attr), []) if c.variant == 'setter' and c.qual == '%s.%s' % (base.cls, tgt.attr)]
+            if setters and tgt.attr not in st.heap.objs[base.ref]:
+                self.apply_contract(setters[0], [base, val], {}, st, tgt)     # property with a setter: the setter's contract
+                return
             st.heap.objs[base.ref][tgt.attr] = val
         elif isinstance(tgt, ast.Subscript):
             base = self.ev(tgt.value, st)
